@@ -135,9 +135,10 @@ Lemma run_J : forall q ops s,
   J q s -> forallb is_session_op ops = true ->
   J q (run s ops) /\ exists e, log (run s ops) = log s ++ e /\ Forall (own q) e.
 Proof.
-  intros q ops; induction ops as [|o ops IH]; intros s HJ Hops; cbn in *.
-  - split; [exact HJ|exists []; rewrite app_nil_r; auto].
-  - apply andb_true_iff in Hops as [Ho Hops].
+  intros q ops; induction ops as [|o ops IH]; intros s HJ Hops.
+  - cbn. split; [exact HJ|exists []; rewrite app_nil_r; auto].
+  - cbn [forallb] in Hops. apply andb_true_iff in Hops as [Ho Hops].
+    change (run s (o :: ops)) with (run (step s o) ops).
     destruct (step_J q s o HJ Ho) as [HJ1 [e1 [E1 F1]]].
     destruct (IH (step s o) HJ1 Hops) as [HJ2 [e2 [E2 F2]]].
     split; [exact HJ2|]. exists (e1 ++ e2). rewrite E2, E1, app_assoc. split; [reflexivity|apply Forall_app; auto].
@@ -175,9 +176,10 @@ Qed.
 Lemma run_K : forall q ops s,
   K q s -> K q (run s ops) /\ exists e, log (run s ops) = log s ++ e /\ Forall (own q) e.
 Proof.
-  intros q ops; induction ops as [|o ops IH]; intros s HK; cbn.
-  - split; [exact HK|exists []; rewrite app_nil_r; auto].
-  - destruct (step_K q s o HK) as [HK1 [e1 [E1 F1]]].
+  intros q ops; induction ops as [|o ops IH]; intros s HK.
+  - cbn. split; [exact HK|exists []; rewrite app_nil_r; auto].
+  - change (run s (o :: ops)) with (run (step s o) ops).
+    destruct (step_K q s o HK) as [HK1 [e1 [E1 F1]]].
     destruct (IH (step s o) HK1) as [HK2 [e2 [E2 F2]]].
     split; [exact HK2|]. exists (e1 ++ e2). rewrite E2, E1, app_assoc. split; [reflexivity|apply Forall_app; auto].
 Qed.
@@ -246,3 +248,30 @@ Proof.
   intros q p cx0 fk fresh Hne. unfold ora_connect.
   destruct (p =? q) eqn:E; [apply Z.eqb_eq in E; contradiction|reflexivity].
 Qed.
+
+(* ------------------------------------------------------------------ the fork point where the property fails *)
+
+(* fork while the parent's session already holds a connection: the child's copy of the session cache still has it, and the
+   child's next statement goes out on it - Pool.connect, the only place that compares pids, is not on that path *)
+Theorem child_live_session_uses_parent_connection : forall p q parent_ops c,
+  let par := run (init p) parent_ops in
+  ccon par = Some c ->
+  creator c = p
+  /\ log (run (fork par q) [OQuery]) = [EUse q c]
+  /\ forked (run (fork par q) [OQuery]) = forked par.
+Proof.
+  intros p q pops c par Hc.
+  destruct (parent_safe p pops) as (_ & _ & Hcc). fold par in Hcc.
+  split; [apply Hcc; exact Hc|].
+  destruct (run_K p pops (init p) (J_init p)) as [[(_ & _ & _ & Hd) _] _]. fold par in Hd.
+  unfold run, fork; cbn [fold_left step pid pcon ppid forked ccon depthc serial log].
+  destruct (depthc par) as [|d] eqn:E; [rewrite (Hd eq_refl) in Hc; discriminate Hc|].
+  rewrite Hc. cbn. split; reflexivity.
+Qed.
+
+Lemma live_session_witness :
+  let par := run (init 1) [OBegin; OQuery] in
+  ccon par = Some (1, 1)
+  /\ log (run (fork par 2) [OQuery; OEnd]) = [EUse 2 (1, 1); EUse 2 (1, 1); EUse 2 (1, 1)]
+  /\ forallb (ownb 2) (log (run (fork par 2) [OQuery; OEnd])) = false.
+Proof. vm_compute. repeat split; reflexivity. Qed.
